@@ -225,9 +225,33 @@ def end_class(x, lo, hi):
     return None
 
 
+_DEGENERATE = {}
+
+
+def degenerate_points():
+    """Neighbourhoods of the zeros of the coefficients of the two region 4 quadratics (ref/thermo.py):
+    {'t': [(t, name)], 'p': [(p, name)]}."""
+    if not _DEGENERATE:
+        ts, ps = [], []
+        for i, x in R.sign_changes(R.sat_quadratic_coefficients, R.T_MIN, R.TCRIT97):
+            ts += [(v, 'ABC'[i] + '=0') for v in R.neighbourhood(x) if R.T_MIN <= v <= R.TCRIT97]
+        plo = 611.657       # sat(0.01 degC) to 4 digits: only the scan range
+        for i, x in R.sign_changes(R.tsat_quadratic_coefficients, plo, R.PCRIT97):
+            ps += [(v, 'EFG'[i] + '=0') for v in R.neighbourhood(x) if plo < v <= R.PCRIT97]
+        _DEGENERATE['t'], _DEGENERATE['p'] = ts, ps
+    return _DEGENERATE
+
+
+def degenerate_class(x, which):
+    for v, name in degenerate_points()[which]:
+        if v == x:
+            return 'quadratic-coefficient-' + name
+    return None
+
+
 def chk_satinv_t(I, t):
     """tsat(sat(t)) = t"""
-    cls = end_class(t, R.T_MIN, R.TCRIT97) or band(t)
+    cls = end_class(t, R.T_MIN, R.TCRIT97) or degenerate_class(t, 't') or band(t)
     m = {}
     try:
         p = call('sat', I.sat, t)
@@ -318,6 +342,8 @@ def sat_line_ts():
     pts = dict((t, True) for t in inner)
     for x in R.around(R.T_MIN) + R.around(R.TCRIT97):
         pts[x] = (R.T_MIN <= x <= R.TCRIT97)
+    for x, name in degenerate_points()['t']:
+        pts[x] = True
     return sorted(pts.items())
 
 
@@ -329,16 +355,21 @@ def b23_ts():
     return sorted(pts.items())
 
 
-def rev_lattice(lo, hi, n):
-    """[(p, inside, class)] - log lattice on [lo, hi], end points with neighbours."""
+def rev_lattice(lo, hi, n, extra=()):
+    """[(p, inside, class)] - log lattice on [lo, hi], end points with neighbours, plus the named extra points."""
     pts = {}
+    named = {}
     for p in R.logspace(lo, hi, n):
         pts[p] = True
+    for p, name in extra:
+        if lo <= p <= hi:
+            pts[p] = True
+            named[p] = 'quadratic-coefficient-' + name
     for x in R.around(lo) + R.around(hi):
         pts[x] = (lo <= x <= hi)
     out = []
     for p in sorted(pts):
-        cls = end_class(p, lo, hi) or 'interior'
+        cls = end_class(p, lo, hi) or named.get(p) or 'interior'
         out.append((p, pts[p], cls))
     return out
 
@@ -422,6 +453,22 @@ def chk_state_tp(I, reg, t, p):
     except LibErr as e:
         return [('C14|%s|raises:%s|region%d|%s' % (e.site, type(e.exc).__name__, reg, b),
                  '%s at (t, p) = (%r, %r)' % (e, t, p))], m, 'raised', None
+    try:
+        edge = R.identity_tp_edge(lambda tt, pp: call(name, f, tt, pp), t, p, hp, t_hi)
+    except LibErr as e:
+        return [('C14|%s|raises:%s|region%d|%s' % (e.site, type(e.exc).__name__, reg, b),
+                 '%s near (t, p) = (%r, %r)' % (e, t, p))], m, 'raised', None
+    if edge is None:
+        viols.append(('C14|%s|refuses-own-region|edge-stencil|%s' % (name, b),
+                      '%s refused a state of the one-sided difference stencil at (%r, %r)' % (name, t, p)))
+    elif edge != 'interior':
+        ekey = 'identity_r%d_edge' % reg
+        m[ekey] = (edge, 't=%r p=%r' % (t, p))
+        if not edge <= tol(ekey):
+            viols.append(('C14|%s|single-potential-identity|at-range-limit|%s' % (name, b),
+                          '(du/dp)_T + T (dv/dT)_p + p (dv/dp)_T is %.3g of the sum of its terms at the limit state '
+                          '(t, p) = (%r, %r) (one-sided differences, tolerance %.3g): density and energy are not '
+                          'derivatives of one potential' % (edge, t, p, tol(ekey))))
     if res is None:
         viols.append(('C14|%s|refuses-own-region|stencil|%s' % (name, b),
                       '%s refused a state of the difference stencil around (%r, %r)' % (name, t, p)))
@@ -938,7 +985,7 @@ def _explore(I, unit, tier, rec, W):
         rec.sample({'clause': 'satinv_t', 't': pts[len(pts) // 2][0], 'points': len(pts)})
     elif kind == 'satinv_p':
         lo = need('sat', I.sat, R.T_MIN)
-        for p, inside, cls in rev_lattice(lo, R.PCRIT97, P['nrev']):
+        for p, inside, cls in rev_lattice(lo, R.PCRIT97, P['nrev'], degenerate_points()['p']):
             v, m, oc = chk_satinv_p(I, p, cls)
             if not inside:
                 v = []
